@@ -650,3 +650,7 @@ pub fn replay(ctx: &Ctx, v: &Value) -> i32 {
         1
     }
 }
+
+pub fn worker(_args: &[String]) -> i32 {
+    2
+}
